@@ -587,6 +587,56 @@ Proof.
 Qed.
 
 (* ------------------------------------------------------------------------------------------ *)
+(* a precompressed sibling is the sibling of the cleaned path                                  *)
+
+Lemma jail_last_seg p x : good_seg x ->
+  jail (p ++ SLASH :: x) =
+  SLASH :: join [SLASH] (clean_segs true (split SLASH (SLASH :: p)) [] ++ [x]).
+Proof.
+  intros Hx. destruct Hx as (Hne & Hd & Hdd & Hns).
+  assert (Hgood : good_seg x) by (repeat split; assumption).
+  unfold jail. rewrite clean_rooted_unfold.
+  assert (Hsplit : split SLASH (SLASH :: (p ++ SLASH :: x)) = split SLASH (SLASH :: p) ++ [x]).
+  { unfold split. change (SLASH :: p ++ SLASH :: x) with ((SLASH :: p) ++ SLASH :: x).
+    rewrite split_on_app_sep. f_equal. rewrite split_on_no_sep by exact Hns. reflexivity. }
+  rewrite Hsplit, clean_segs_app.
+  rewrite clean_segs_good_id by (intros s [<-|[]]; exact Hgood).
+  rewrite rev_involutive. reflexivity.
+Qed.
+
+Lemma ext_good s e ext : In (e, ext) gen_static_encodings -> good_seg s -> good_seg (s ++ ext).
+Proof.
+  intros Hin (Hne & _ & _ & Hns).
+  assert (Hext : ext = [46; 122; 115; 116] \/ ext = [46; 98; 114] \/ ext = [46; 103; 122]).
+  { vm_compute in Hin. destruct Hin as [H | [H | [H | [] ] ] ]; inversion H; auto. }
+  destruct s as [|a s]; [congruence|].
+  assert (Hnil : forall t, beq (t ++ ext) [] = false).
+  { intros t. destruct t; [|reflexivity]. destruct Hext as [Ex|[Ex|Ex]]; rewrite Ex; reflexivity. }
+  repeat split.
+  - discriminate.
+  - unfold is_dot. cbn [app beq]. rewrite Hnil. apply andb_false_r.
+  - unfold is_dotdot. cbn [app beq]. destruct s as [|b s].
+    + destruct Hext as [Ex|[Ex|Ex]]; rewrite Ex; cbn; apply andb_false_r.
+    + cbn [app beq]. rewrite Hnil. rewrite !andb_false_r. reflexivity.
+  - intros Hin'. apply in_app_or in Hin' as [H|H]; [exact (Hns H)|].
+    destruct Hext as [Ex|[Ex|Ex]]; rewrite Ex in H; cbn in H; intuition discriminate.
+Qed.
+
+Lemma sibling_of_cleaned p s e ext :
+  In (e, ext) gen_static_encodings -> good_seg s ->
+  jail ((p ++ SLASH :: s) ++ ext) = jail (p ++ SLASH :: s) ++ ext.
+Proof.
+  intros Hin Hs. rewrite <- app_assoc. cbn [app].
+  rewrite (jail_last_seg p (s ++ ext)) by (eapply ext_good; eassumption).
+  rewrite (jail_last_seg p s) by exact Hs.
+  set (S := clean_segs true (split SLASH (SLASH :: p)) []).
+  destruct S as [|a S'] eqn:ES.
+  - reflexivity.
+  - rewrite <- ES. rewrite !join_snoc by (rewrite ES; discriminate).
+    cbn [app]. rewrite <- app_assoc. reflexivity.
+Qed.
+
+(* ------------------------------------------------------------------------------------------ *)
 (* statements as used in C02_Props.v                                                           *)
 
 Lemma static_served_inside_root fs hide pages prefix m req ae n enc :
